@@ -27,10 +27,17 @@ reg("C06", "proof",
     "(non-linear real arithmetic); loop_refinement per-pixel contract, bounds and prange race-freedom obligations.",
     assumptions=["costs are finite or NaN (never +-inf) -- established by the matching-cost contracts of C02"])
 
-FIX_COMMITS = ["c8eaaa2", "39f21c5"]
-NOT_YET = {}
 
 reg("C11", "proof",
     "cross-based cost aggregation: the numba kernels cbca_step_1..4 and cross_support proved against prefix-sum / "
     "support-region specifications with loop invariants (all image sizes, all arm lengths), including every unchecked "
     "array access; the numpy glue of cost_volume_aggregation is covered by the bounded stand-in only.")
+
+BOUNDED_ONLY = ("bounded stand-in only so far (labelled bounded, never counted as proved): the real code is run on an enumerated "
+                "domain against a naive oracle written from the property statement; contracts for the anchored functions are "
+                "being added and move this property to level proof when their obligations discharge")
+for _pid in ["C01", "C02", "C03", "C04", "C05", "C07", "C08", "C09", "C10", "C12", "C13", "C14", "C15", "C16", "C17", "C18", "C19", "C20"]:
+    reg(_pid, "other", BOUNDED_ONLY)
+
+FIX_COMMITS = ["c8eaaa2", "39f21c5", "00e445f", "cea0f99", "62af5fc", "d016e8e", "a2233a1", "3bbb417", "bdac312", "35f4fa5"]
+NOT_YET = {}
